@@ -158,7 +158,8 @@ func checkC08(tier string) int {
 			if replayed > 0 {
 				r.Count("blocks_replayed_by_handshake", 1)
 				if idx, x, y := hist.FirstDiff(hist.Project(blk.Resp[0].Calls), hist.Project(rep)); idx >= 0 {
-					r.Violate(verdict.Violation{Signature: "C08/replayed/" + pc + "/" + strings.ToLower(strings.SplitN(x+" ", " ", 2)[0]), What: fmt.Sprintf("history seed %d: killed at %s of block %d; the replay during the handshake gave %q where the uninterrupted node gave %q", hseed, point, blk.H, y, x), Witness: map[string]interface{}{"seed": hseed, "height": blk.H, "point": point, "recipes": run.Recipes()}})
+					k, d := diffStates(fullDump(run.Reps[0].Box), fullDump(crasher.Box))
+					r.Violate(verdict.Violation{Signature: "C08/replayed/" + pc + "/" + strings.ToLower(strings.SplitN(x+" ", " ", 2)[0]) + "/key:" + keyClass(k), What: fmt.Sprintf("history seed %d: killed at %s of block %d; the replay during the handshake gave %q where the uninterrupted node gave %q; first differing key %s", hseed, point, blk.H, y, x, d), Witness: map[string]interface{}{"seed": hseed, "height": blk.H, "point": point, "recipes": run.Recipes()}})
 					return true
 				}
 			}
